@@ -4,7 +4,7 @@ import gen_bus
 
 RULE = ('python-random histories over 3 connections: AddMatch/RemoveMatch with rule texts from the grammar (every key, '
         'quoting forms, near-miss variants of held rules, invalid rules), broadcast and unicast signals and calls whose '
-        'leading arguments are strings/paths/ints chosen to sit on the prefix/namespace boundaries, ownership changes '
+        'leading arguments are strings/paths/ints chosen to sit on the prefix/namespace boundaries (every fourth scenario: rules with up to three argument keys of mixed kinds), ownership changes '
         'and disconnects in between; distinct = distinct scenario texts')
 W = {'req': 1.5, 'rel': 0.7, 'query': 0.3, 'addmatch': 4, 'rmmatch': 2.5, 'signal': 6, 'call': 1, 'reply': 0.5,
      'usignal': 1.5, 'close': 0.3, 'driver_other': 0.3, 'nodest': 0.1}
@@ -13,6 +13,8 @@ W = {'req': 1.5, 'rel': 0.7, 'query': 0.3, 'addmatch': 4, 'rmmatch': 2.5, 'signa
 def gen(rng, i):
     g = gen_bus.Gen(rng, nslots=3, nnames=2, w=W, eavesdrop=0.15 if i % 3 == 0 else 0.0, odd_rules=0.12,
                     cfg={'maxMatch': 4} if i % 5 == 4 else None)
+    if i % 4 == 1:
+        g.argfocus = 0.6        # rules with several argument keys of mixed kinds, signals on their boundaries
     return g.scenario(nrounds=rng.choice([10, 14, 18]), concurrency=0.3, burst=0.25)
 
 
